@@ -129,8 +129,88 @@ fn c06(tier: &str, seed: u64) -> GridCheck {
     c
 }
 
+pub const ALL12: [&str; 12] = MACROS;
+
+fn c10(tier: &str, seed: u64) -> GridCheck {
+    let mut c = base_check("C10", "C10", "exploration");
+    let mut cfg = GenCfg::base(ALL12.to_vec());
+    cfg.n = (1, 4);
+    cfg.depth = (1, 3);
+    cfg.cell = (0, 3);
+    cfg.wrappers = 0.2;
+    cfg.caps = 0.3;
+    cfg.names = 0.0;
+    cfg.snaps = 0.0;
+    cfg.handler = 0.4;
+    cfg.handler_block = 0.6;
+    let count = if tier == "quick" { 480 } else { 4800 };
+    c.progs = sample(seed, 0x1000, count, &cfg, &|i| Some(ALL12[i % 12]));
+    c.budget = if tier == "quick" { 32 } else { 128 };
+    c.features = vec!["clonetok"];
+    c.rule = "programs: random grid programs under all 12 macro names with all grid operators, wrappers, steps, block captures, handlers (block handlers log their own evaluation); values are clone-counting drop-counting tokens; inputs: the all-succeed plan plus sampled/enumerated failure plans; oracle: the multiset of all evaluation events (initial value, operand expression, callback call, capture, snapshot, handler expression, handler call) equals the model's, per-branch callback order equals the model's, clone counter == 0, live tokens == 0 after the result is dropped. Non-trivial = program contains a `??` and a block capture".to_string();
+    c
+}
+
+fn c11(tier: &str, seed: u64) -> GridCheck {
+    let mut c = base_check("C11", "C11", "exploration");
+    let mut cfg = GenCfg::base(ALL12.to_vec());
+    cfg.n = (1, 5);
+    cfg.depth = (1, 4);
+    cfg.cell = (0, 3);
+    cfg.wrappers = 0.25;
+    cfg.caps = 0.5;
+    cfg.names = 0.2;
+    cfg.snaps = 0.3;
+    cfg.handler = 0.2;
+    let count = if tier == "quick" { 480 } else { 4800 };
+    c.progs = sample(seed, 0x1100, count, &cfg, &|i| Some(ALL12[i % 12]));
+    c.budget = if tier == "quick" { 16 } else { 64 };
+    c.rule = "programs: random grid programs under all 12 macro names with block operands on every hoistable grid position (initial values, |> => ?> ?? -> <| <= !> operands, also inside nested wrappers), several per branch and step; oracle over the event log: the capture phase of each executed step (cap, snapshots, construction of the wrapped operand) happens exactly once, in branch-then-position order, after every event of earlier steps and before every other event of its own step. Non-trivial = a step with captures from two different branches".to_string();
+    c
+}
+
+fn c12(tier: &str, seed: u64) -> GridCheck {
+    let mut c = base_check("C12", "C12", "exploration");
+    let mut cfg = GenCfg::base(KINDS8.to_vec());
+    cfg.n = (2, 5);
+    cfg.depth = (1, 4);
+    cfg.cell = (0, 2);
+    cfg.wrappers = 0.1;
+    cfg.caps = 0.5;
+    cfg.names = 0.7;
+    cfg.snaps = 0.9;
+    cfg.handler = 0.2;
+    let count = if tier == "quick" { 480 } else { 4800 };
+    c.progs = sample(seed, 0x1200, count, &cfg, &|i| Some(KINDS8[i % 8]));
+    c.budget = if tier == "quick" { 16 } else { 64 };
+    c.rule = "programs: random grid programs under the eight macro kinds, random subsets of branches named with let / let mut, block captures in steps >= 1 of any branch snapshot random named branches (also ones that have finished); oracle: each snapshot equals the named branch's most recent step result (wrapped), and the macro's value equals the model's (which ignores names). Non-trivial = a snapshot taken in a step >= 1".to_string();
+    c
+}
+
+fn c13(tier: &str, seed: u64) -> GridCheck {
+    let mut c = base_check("C13", "C13", "exploration");
+    let mut cfg = GenCfg::base(ALL12.to_vec());
+    cfg.n = (1, 5);
+    cfg.depth = (1, 3);
+    cfg.cell = (0, 2);
+    cfg.wrappers = 0.05;
+    cfg.caps = 0.1;
+    cfg.names = 0.1;
+    cfg.handler = 1.0;
+    cfg.recover = 0.5;
+    let count = if tier == "quick" { 360 } else { 3600 };
+    c.progs = sample(seed, 0x1300, count, &cfg, &|i| Some(ALL12[i % 12]));
+    c.budget = if tier == "quick" { 64 } else { 512 };
+    c.rule = "programs: random grid programs under all 12 macro names, each with the handler kind legal for it (map / and_then for try, then otherwise) at a random position among 1-5 branches; inputs: enumerated / sampled failure plans (handler outcome included); oracle: handler-call events (exactly once with the unwrapped values in branch order iff all branches succeeded, `then` always once with the raw values), the handler's future is run in async macros, the macro's value is the model's. Non-trivial = handler not in last position, or a failing plan".to_string();
+    c
+}
+
 pub fn build(id: &str, tier: &str, seed: u64) -> Option<GridCheck> {
     Some(match id {
+        "C10" => c10(tier, seed),
+        "C11" => c11(tier, seed),
+        "C12" => c12(tier, seed),
+        "C13" => c13(tier, seed),
         "C04" => c04(tier, seed),
         "C05" => c05(tier, seed),
         "C06" => c06(tier, seed),
